@@ -2,6 +2,7 @@ import GrinVerif.Lemmas.CodecFaith
 import GrinVerif.Lemmas.CodecSafe
 import GrinVerif.Lemmas.CodecTimed
 import GrinVerif.Lemmas.CodecNonce
+import GrinVerif.Lemmas.CodecAttach
 /-! # C19 — peer message framing is faithful under fragmentation and enforces size limits
 
 Model: `Model/Codec.lean` (the `Codec` state machine of `p2p/src/codec.rs` over a socket that is a
@@ -44,6 +45,11 @@ stated round-trip hypotheses (`SentWF`), in particular for the native bodies of 
   after it) the expected sequence is delivered; `fragmentation_small_delays_faithful` (all pauses
   < 2 s), `fragmentation_with_idle_gaps_faithful` (in addition pauses of ANY length between messages:
   the reads that time out while idle lose nothing and are retried), `idle_pause_absorbed`;
+* `attachment_chunks_exact`, `attachment_step` — the attachment streamed after a message: the
+  `Attachment(left)` state as a sub-state machine (`attStep`); for every size the updates are full
+  48 000-byte chunks with something left followed by exactly one update with `left = 0` (one empty update
+  for size 0), they add up to the attachment, and the codec is back to reading a message header exactly
+  after that last update — also when it is a full chunk;
 * `codec_read_no_panic`, `codec_read_no_hang`, `codec_read_alloc_bound` — the C11 obligations of the
   state machine itself.
 
@@ -306,6 +312,78 @@ theorem header_pause_desyncs :
       (tagSched [(0, (encHeader exEnv.net 3 2).take 5), (2000, (encHeader exEnv.net 3 2).drop 5 ++ [1, 2])])).1
       ≠ [Message.body 3 [1, 2]] := by
   decide
+
+/-! ## attachments streamed after a message -/
+
+/-- **the `Attachment(left, ..)` state is the sub-state machine `attStep`**: the chunk announced is
+`min(left, 48 000)`; with that many bytes buffered the read returns an update carrying exactly them, with
+`left' = left − chunk`; the state after it is `None` (message-header reading) iff `left' = 0`, i.e. iff
+`left ≤ 48 000` — in particular after a *full* chunk when `left = 48 000` — and `Attachment(left')` otherwise -/
+theorem attachment_step (env : Env B H) (left : Nat) (chunk : Bytes) (hc : chunk.length = min left ATTACHMENT_CHUNK) :
+    nextLen env (State.attachment left : State H) = min left 48000 ∧
+    stepState env ({ buffer := chunk, state := .attachment left } : Codec H) (nextLen env (State.attachment left : State H)) =
+      .inl (.msg (.attachment (min left 48000) (left - min left 48000) chunk),
+            { buffer := [], state := if left ≤ 48000 then .none else .attachment (left - 48000) }, 0) ∧
+    ((attStep left).2 = none ↔ left ≤ 48000) := by
+  have h48 : ATTACHMENT_CHUNK = 48000 := rfl
+  have hs := stepState_attStep env left chunk hc
+  refine ⟨rfl, ?_, ?_⟩
+  · rw [hs]
+    simp only [attStep, h48]
+    by_cases hle : left ≤ 48000
+    · simp [hle]
+    · have h2 : min left 48000 = 48000 := by omega
+      have h3 : ¬ left - 48000 = 0 := by omega
+      simp [hle, h2, h3]
+  · simp only [attStep, h48]
+    by_cases hle : left ≤ 48000
+    · simp [hle]
+    · have h1 : ¬ left - min left 48000 = 0 := by omega
+      simp [h1, hle]
+
+example : attStep 0 = (0, none) ∧ attStep 1 = (1, none) ∧ attStep 47999 = (47999, none) ∧
+    attStep 48000 = (48000, none) ∧ attStep 48001 = (48000, some 1) ∧ attStep 96000 = (48000, some 48000) ∧
+    attChunkLens 5 0 = [0] ∧ attChunkLens 96001 96000 = [48000, 48000] ∧
+    attChunkLens 96002 96001 = [48000, 48000, 1] ∧ attChunkLens 144001 144000 = [48000, 48000, 48000] := by decide
+
+/-- **the chunks of an attachment are exact**, for every attachment `data` (of any size `n`) followed by
+anything: reading from `Attachment(n)` the reader loop delivers full 48 000-byte updates that all
+report something left, then exactly one update with `left = 0` (of `n mod 48 000` bytes, or a full one
+when `n` is a positive multiple, or the single empty update when `n = 0`) and nothing more: it is then
+idle in `None` with an empty buffer and `rest` unread.  The update lengths are those of the sub-state
+machine `attStep`, each is ≤ 48 000 (the literal of `next_len`), they sum to `n`, and the bytes handed
+over concatenate to `data` -/
+theorem attachment_chunks_exact (env : Env B H) (attach : Message B H → Option Nat) (hat : AttachOK attach)
+    (data rest : Bytes) :
+    ∃ (pre : List (Message B H)) (last : Bytes),
+      Chain env attach { buffer := [], state := .attachment data.length } (data ++ rest)
+        (pre ++ [.attachment last.length 0 last]) idle rest ∧
+      (∀ e ∈ pre, ∃ left b, e = .attachment 48000 left b ∧ b.length = 48000 ∧ left ≠ 0) ∧
+      last.length ≤ 48000 ∧
+      (pre.map attRead).sum + last.length = data.length ∧
+      (pre.map attBytes).flatten ++ last = data ∧
+      (pre ++ [Message.attachment last.length 0 last]).map attRead = attChunkLens (data.length + 1) data.length ∧
+      (data = [] → pre = [] ∧ last = []) ∧
+      GV.Gen.CodecTimeouts.ATTACHMENT_CHUNK_SRC = ATTACHMENT_CHUNK := by
+  have h48 : ATTACHMENT_CHUNK = 48000 := rfl
+  obtain ⟨pre, last, e1, e2, e3, e4, e5⟩ := attEvents_spec (B := B) (H := H) (data.length + 1) data (Nat.lt_succ_self _)
+  have hch := chain_attachment env attach hat rest (data.length + 1) data (Nat.lt_succ_self _)
+  rw [e1] at hch
+  have hl := attEvents_lens (B := B) (H := H) (data.length + 1) data
+  rw [e1] at hl
+  refine ⟨pre, last, hch, ?_, by omega, e5, e4, hl, ?_, rfl⟩
+  · intro e he
+    obtain ⟨left, b, h1, h2, h3⟩ := e3 e he
+    exact ⟨left, b, by rw [h1, h48], by rw [h2, h48], h3⟩
+  · intro hd
+    subst hd
+    cases pre with
+    | nil => exact ⟨rfl, by simpa using e4⟩
+    | cons x xs =>
+      obtain ⟨left, b, h1, h2, _⟩ := e3 x (by simp)
+      rw [h1] at e5
+      simp [attRead] at e5
+      omega
 
 /-! ## refusals at the frame header -/
 
